@@ -25,6 +25,8 @@ NoLab == [ev |-> "-"]
 NoX == [nx |-> 0]          \* "no extra payload" (ignored when a label is matched against a trace line)
 NoWait == [k |-> "-", until |-> -1, coop |-> FALSE, kk |-> 0]
 \* hedge delay: fixed, or a delay function of the execution (the harness' function indexes a list by Hedges())
+\* cachepolicy getCacheKey: a string key in the execution's context wins (also the empty one), else the configured key
+CacheKeyT(p, ck) == IF ck \in {"none", "nonstring"} THEN p.key ELSE ck
 HedgeDelay(p, hedgesSoFar) == IF p.delays = <<>> THEN p.delay ELSE p.delays[(hedgesSoFar % Len(p.delays)) + 1]
 Min2(a, b) == IF a < b THEN a ELSE b
 
@@ -88,7 +90,8 @@ NewThread(x, kind, mode, i, obj, pt, pl, idx, w) ==
    oldobj |-> [j \in 1..N |-> 0], pt |-> pt, pl |-> pl, idx |-> idx, sub |-> "-", snap |-> NoLast]
 
 \* what user code reads from the execution it is handed (counters are shared atomics; last result is per copy)
-Snap(X, last) == [att |-> X.att, exe |-> X.exe, ret |-> X.ret, hdg |-> X.hdg, lr |-> last.r, le |-> last.e]
+\* (StartTime() is the instant the execution started, whichever copy is asked; ElapsedTime() is measured from it)
+Snap(X, last) == [att |-> X.att, exe |-> X.exe, ret |-> X.ret, hdg |-> X.hdg, lr |-> last.r, le |-> last.e, st |-> X.t0, el |-> now - X.t0]
 \* events that hand user code an ExecutionAttempt: LastError() reports the context's error when there is no last error and
 \* the copy's context is done (execution.go LastError); o = the copy the event is built from
 LabA(ev, S, t, layer, last, extra, o) ==
@@ -147,6 +150,20 @@ DownSteps(S, t) ==
              w == IF w0 < 0 THEN 0 ELSE w0 IN
          IF w > p.wait THEN Silent([S EXCEPT !.th[t].mode = "onrl"])
          ELSE Silent(Block([S EXCEPT !.pol[p.id] = [nextFree |-> nn]], t, [k |-> "rl", until |-> now + w, coop |-> TRUE, kk |-> 0]))
+    [] p.k = "cache" ->
+         \* PreExecute: key (a string key in the execution's context wins over the configured one; no key: no cache access);
+         \* cache.Get (the harness' cache logs the call and its answer inside its own lock); OnCacheHit and the cached
+         \* value go up, or OnCacheMiss (on a copy of the execution taken first) and the inner layers run
+         LET key == CacheKeyT(p, X.ck) IN
+         (CASE T.sub = "-" /\ key = "" -> Silent([S EXCEPT !.th[t].sub = "miss", !.th[t].snap = X.last[o]])
+           [] T.sub = "-" /\ key # "" ->
+                LET hit == {e \in S.pol[p.id] : e.k = key}
+                    v == IF hit = {} THEN "R0" ELSE (CHOOSE e \in hit : TRUE).v IN
+                One([S EXCEPT !.th[t].sub = IF hit = {} THEN "miss0" ELSE "hit", !.th[t].res = PR(v, Nil, TRUE, TRUE, TRUE)],
+                    [ev |-> "CacheGet", L |-> i, key |-> key, found |-> hit # {}, v |-> v])
+           [] T.sub = "hit" -> One([Ret(S, t, i - 1, T.res) EXCEPT !.th[t].sub = "-"], LabD("OnCacheHit", S, t, i, Pair(T.res.r, Nil), NoX))
+           [] T.sub = "miss0" -> Silent([S EXCEPT !.th[t].sub = "miss", !.th[t].snap = X.last[o]])
+           [] T.sub = "miss" -> One([Desc(S, t) EXCEPT !.th[t].sub = "-"], Lab("OnCacheMiss", S, t, i, T.snap, NoX)))
     [] p.k = "bh" ->
          \* phase 1: select { ctx.Done / semaphore <- / default }
          LET canc == CanceledF(X, o)   free == S.pol[p.id] < p.max IN
@@ -276,6 +293,16 @@ UpSteps(S, t) ==
                   IF r.ev = <<>> THEN NoLab ELSE [ev |-> "StateChanged", id |-> p.id, old |-> r.ev[1].old, new |-> r.ev[1].new])
     [] p.k = "rl" -> Silent(Ret(S, t, i - 1, pr))                \* its own Apply: no PostExecute
     [] p.k = "bh" -> Silent(Ret([S EXCEPT !.pol[p.id] = @ - 1], t, i - 1, pr))
+    [] p.k = "cache" ->
+         \* PostExecute: cacheable (no conditions: no error; else any CacheIf condition) and a key => cache.Set, then OnResultCached
+         LET key == CacheKeyT(p, X.ck)
+             should == (p.ifc = {} /\ IsNil(pr.e)) \/ (\E c \in p.ifc : MatchesX(c, pr.r, pr.e)) IN
+         IF T.sub = "-" THEN
+            IF should /\ key # ""
+            THEN One([S EXCEPT !.pol[p.id] = {e \in @ : e.k # key} \cup {[k |-> key, v |-> pr.r]}, !.th[t].sub = "cached"],
+                     [ev |-> "CacheSet", L |-> i, key |-> key, v |-> pr.r])
+            ELSE Silent(Ret(S, t, i - 1, pr))
+         ELSE One([Ret(S, t, i - 1, pr) EXCEPT !.th[t].sub = "-"], Lab("OnResultCached", S, t, i, last, NoX))
     [] p.k = "to" ->
          \* main side: CompareAndSwap(nil, inner); Stop the timer when it won; PostExecute(result.Load())
          LET won == T.cell[i] = "nil"
@@ -427,7 +454,8 @@ FreshExec(e) ==
               [par |-> 1, can |-> FALSE, cause |-> "-", hedge |-> FALSE, cf |-> cfg.asyncFix, lag |-> 0, lagm |-> FALSE]>>,   \* 2: async: child context of the result
    last |-> <<NoLast, NoLast>>, cres |-> NilPR, att |-> 1, ret |-> 0, hdg |-> 0, exe |-> 0, calls |-> 0, t0 |-> now,
    rs |-> [j \in 1..N |-> [failed |-> 0, exceeded |-> FALSE]], final |-> NilPR, returned |-> FALSE, async |-> e.async, cancel1 |-> FALSE,
-   stored |-> FALSE, doneflag |-> FALSE, closed |-> FALSE, callobj |-> <<>>, spurious |-> 0]
+   stored |-> FALSE, doneflag |-> FALSE, closed |-> FALSE, callobj |-> <<>>, spurious |-> 0,
+   ck |-> IF "ck" \in DOMAIN e THEN e.ck ELSE "none"]
 
 DlOf(e) == IF "dl" \in DOMAIN e THEN e.dl ELSE -1
 \* one environment action (performed by the harness' controller at its scripted instant)
